@@ -113,8 +113,39 @@ def handleHs : List String → String
     | _, _, _, _, _, _, _ => "bad-op"
   | _ => "bad-op"
 
+def closedLine (c : Cfg) (w : String) : String :=
+  s!"rd=- cb=- w={w} pver={c.ours} vk=0 va=0 ack=- wh=0 wa=0 wit=0"
+
+def handleHs2 : List String → String
+  | [tr, dir, ours, allowSelf, net, host, rejVer, toks, toks2] =>
+    match (if dir == "in" then some true else if dir == "out" then some false else none),
+          ours.toNat?, parseBool? allowSelf,
+          (if net == "reg" then some true else if net == "main" then some false else none),
+          (if host == "local" then some true else if host == "remote" then some false else none),
+          parseBool? rejVer, parseToks? toks, parseToks? toks2 with
+    | some inbound, some ours, some as, some reg, some loc, some rv, some ts, some ts2 =>
+      if ours = 0 ∨ ours ≥ 2^32 then "bad-op" else
+      let c : Cfg := ⟨inbound, ours, as, reg && loc, rv⟩
+      if tr == "v2" then
+        let (s, es) := runV2 c ts
+        render s es ++ " dg=0"
+      else if tr == "v2dg" then
+        if inbound then
+          match runV2dgIn c ts with
+          | .v1 (s, es) => render s es ++ " dg=0"
+          | .keyOnly => closedLine c "v2key" ++ " dg=0"
+          | .nothing => closedLine c "-" ++ " dg=0"
+        else if v2dgOutDowngrade ts then
+          let (s, es) := run c ts2
+          closedLine c "v2key" ++ " dg=1 || " ++ render s es
+        else closedLine c "v2key" ++ " dg=0"
+      else "bad-op"
+    | _, _, _, _, _, _, _, _ => "bad-op"
+  | _ => "bad-op"
+
 def handle : List String → String
   | "trace" :: rest => handleTrace rest
+  | "hs2" :: rest => handleHs2 rest
   | ["racerun", _, _, _] =>
     -- the model has no data: a race-detector run of the harness must be clean and agree
     "build=ok races=0 mism=0"
